@@ -23,7 +23,7 @@ import warnings
 
 import common
 from common import short
-from gen import refactor_gen
+from gen import refactor_gen, refactor_shapes
 from props.c07 import dump_tree, load_own_known, split_keepends, sandbox_quirk
 
 MODELS = ['Refactor', 'Tree']
@@ -76,6 +76,15 @@ def adump(src):
             return None
 
 
+def fail(ctx, stream, what, case, observed, expected=None, src=None, request=None):
+    """ctx.fail with the root-cause shape of the input (harness/gen/refactor_shapes.py) in the case;
+    `src` / `request` = the program and request the shape is read from (default: the case itself)"""
+    src = case['source'] if src is None else src
+    request = case if request is None else request
+    shape = refactor_shapes.shape_of(src, request, stream, observed)
+    ctx.fail(stream, what, dict(case, shape=shape), expected=expected, observed=observed, how=HOW)
+
+
 # ------------------------------------------------------------------ parens table
 
 ENVS = [
@@ -124,7 +133,7 @@ def stream_parens(ctx, table):
         if ctx.quick and not row['needs'] and rng.random() > 0.12:
             continue
         src = 'x = %s\n%s\n' % (sample, tmpl.replace('X', 'x'))
-        case = {'source': src, 'line': 1, 'column': 0, 'kind': 'inline', 'ctx': row['ctx'], 'rhs': row['rhs']}
+        case = {'source': src, 'line': 1, 'column': 0, 'kind': 'inline', 'row': [row['ctx'], row['rhs']]}
         try:
             new = new_code_of(jedi.Script(src).inline(1, 0))
         except RefactoringError as e:
@@ -147,8 +156,8 @@ def stream_parens(ctx, table):
         ctx.count('oracle-parens', key, nontrivial=True, bucket=row['parent'])
         err = compiles(new)
         if err is not None:
-            ctx.fail('oracle-parens', 'inline result does not compile', case, expected=want_par,
-                     observed={'new_code': new, 'error': err}, how=HOW)
+            fail(ctx, 'oracle-parens', 'inline result does not compile', case, expected=want_par,
+                 observed={'new_code': new, 'error': err})
         elif adump(new) != d_par:
             diff = None
             for env in ENVS:
@@ -157,8 +166,8 @@ def stream_parens(ctx, table):
                     diff = {'env': {k: repr(v) for k, v in env.items()}, 'old_y': o, 'new_y': n}
                     break
             if diff is not None:
-                ctx.fail('oracle-parens', 'inlined program computes a different value', case,
-                         expected=want_par, observed=dict(diff, new_code=new), how=HOW)
+                fail(ctx, 'oracle-parens', 'inlined program computes a different value', case,
+                     expected=want_par, observed=dict(diff, new_code=new))
             else:
                 ctx.count('oracle-parens-ast-differs-no-witness', key, nontrivial=False, bucket=row['ctx'])
 
@@ -196,6 +205,10 @@ class Capture:
         self.mods[0].inline, self.mods[1]._replace = self.orig
 
 
+def _is_dstar(node):
+    return node is not None and node.type == 'operator' and node.value == '**'
+
+
 def inline_request(names, module_node):
     """the facts `inline` inspects, read off the captured names (single-file cases only)"""
     tree, ids = dump_tree(module_node)
@@ -206,7 +219,8 @@ def inline_request(names, module_node):
         if tn is None:
             ns.append({'api_type': n.api_type, 'has_tree': False, 'is_def': False, 'id': 0, 'prefix': '',
                        'parent_type': '', 'parent_next': False, 'parent_id': 0, 'dot_trailer': False,
-                       'first_prefix': '', 'before': []})
+                       'first_prefix': '', 'before': [], 'prev_dstar': False, 'slot_parent_type': '',
+                       'slot_parent_next': False, 'slot_prev_dstar': False})
             continue
         if id(tn) not in ids:
             return None, None
@@ -220,10 +234,17 @@ def inline_request(names, module_node):
         is_def = tn.is_definition()
         if is_def:
             defs.append(tn)
+        # the slot of the whole `obj.name` (inspected by the fixed source for a final `.name` trailer)
+        whole = par.parent if dot else None
+        wpar = whole.parent if whole is not None else None
         ns.append({'api_type': n.api_type, 'has_tree': True, 'is_def': is_def, 'id': ids[id(tn)],
                    'prefix': tn.prefix, 'parent_type': par.type,
                    'parent_next': par.get_next_sibling() is not None, 'parent_id': ids[id(par)],
-                   'dot_trailer': dot, 'first_prefix': first_prefix, 'before': before})
+                   'dot_trailer': dot, 'first_prefix': first_prefix, 'before': before,
+                   'prev_dstar': _is_dstar(tn.get_previous_sibling()),
+                   'slot_parent_type': wpar.type if wpar is not None else '',
+                   'slot_parent_next': wpar is not None and wpar.get_next_sibling() is not None,
+                   'slot_prev_dstar': whole is not None and _is_dstar(whole.get_previous_sibling())})
     d = {'stmt_type': '', 'stmt_id': 0, 'n_defined': 0, 'child1_type': '', 'child1_value': '', 'child1_code': '',
          'ann_len': 0, 'ann2_value': '', 'rhs_type': '', 'rhs_code': '', 'stmt_prefix': '', 'next_id': 0,
          'next_prefix': '', 'next_type': '', 'next_value': ''}
@@ -277,6 +298,8 @@ def selection_info(src, start, end):
     import parso
     mod = parso.parse(src)
     leaf = mod.get_leaf_for_position(start, include_prefixes=True)
+    if leaf is not None and leaf.end_pos <= start and leaf.get_next_leaf() is not None:
+        leaf = leaf.get_next_leaf()     # a range that starts where a leaf ends starts with the next leaf
     info = {'while_cond': False, 'binds': False, 'target': False, 'multiline': start[0] != end[0],
             'in_lambda_or_comp': False}
     text_lines = split_keepends(src)
@@ -374,35 +397,6 @@ def name_positions(src):
     return out
 
 
-def multiline_statement(src, pos):
-    """does the (simple) statement that contains `pos` span more than one line?"""
-    import parso
-    mod = parso.parse(src)
-    n = mod.get_leaf_for_position(tuple(pos), include_prefixes=True)
-    while n is not None and n.parent is not None and n.type not in ('simple_stmt', 'expr_stmt', 'return_stmt'):
-        n = n.parent
-    if n is None or n.parent is None:
-        return False
-    last = n.get_last_leaf()
-    if last.type == 'newline':
-        last = last.get_previous_leaf()
-    return n.start_pos[0] != last.end_pos[0]
-
-
-def tags_for(src, kind, start, end, info):
-    """coarse classification of an input, used only to key known findings"""
-    tags = []
-    if info and info.get('multiline'):
-        tags.append('multiline-selection')
-    if end is not None and end[1] == 0 and end[0] > start[0]:
-        tags.append('until-at-next-line-start')
-    return tags
-
-
-def behaviour(res):
-    return res
-
-
 def compare_runs(old, new, ignore):
     if old[0] != new[0]:
         return {'old': old[:2] if old[0] != 'ok' else 'ok', 'new': new[:2] if new[0] != 'ok' else 'ok'}
@@ -484,16 +478,7 @@ def stream_programs(ctx, reqs, pending):
             case = {'source': src, 'kind': kind, 'line': s[0], 'column': s[1],
                     'until_line': e[0] if e else None, 'until_column': e[1] if e else None}
             info = selection_info(src, s, e) if e is not None and kind != 'inline' else None
-            if kind == 'inline':
-                case['tags'] = sorted(classify_inline(src, s))
-                case['semicolon_statement'] = 'semicolon-statement' in case['tags']
-                case['attribute_reference'] = 'attribute-reference' in case['tags']
-            else:
-                case['tags'] = []
-                case['multiline_statement'] = multiline_statement(src, s)
-                case['until_next_line_start'] = e is not None and e[1] == 0 and e[0] > s[0]
-                case['stmt_text_end'] = typ == 'stmts'
-                case['selection_is_target'] = bool(info and info['target'] and not typ.startswith('stmts'))
+            case['tags'] = sorted(classify_inline(src, s)) if kind == 'inline' else [typ]
             key = (src, kind, s, e)
             script = jedi.Script(src)
             with Capture() as cap:
@@ -541,8 +526,8 @@ def stream_programs(ctx, reqs, pending):
                       sample={'request': {k: v for k, v in case.items() if k != 'source'}})
             cerr = compiles(new)
             if cerr is not None:
-                ctx.fail('oracle-compile', '%s returned a program that does not compile' % kind, case,
-                         observed={'error': cerr, 'new_code': new}, how=HOW)
+                fail(ctx, 'oracle-compile', '%s returned a program that does not compile' % kind, case,
+                     observed={'error': cerr, 'new_code': new})
                 continue
             # --- equivalence (pure, evaluated-once expression selections; inline of single assignments)
             judged = False
@@ -561,8 +546,8 @@ def stream_programs(ctx, reqs, pending):
             ctx.count('oracle-equiv' if judged else 'equiv-not-judged', key, nontrivial=judged,
                       bucket='%s/%s%s' % (kind, typ, '' if diff is None else '/differs'))
             if judged and diff is not None:
-                ctx.fail('oracle-equiv', '%s changed the behaviour of the program' % kind, case,
-                         observed={'differences': diff, 'new_code': new}, how=HOW)
+                fail(ctx, 'oracle-equiv', '%s changed the behaviour of the program' % kind, case,
+                     observed={'differences': diff, 'new_code': new})
                 continue
             # --- extract -> inline round trip
             if kind == 'extract_variable' and judged and diff is None:
@@ -578,19 +563,21 @@ def stream_programs(ctx, reqs, pending):
                     except Exception as ex:
                         ctx.count('raised', None, nontrivial=False, bucket=type(ex).__name__)
                         continue
-                    rtags = classify_inline(new, (line, col))
-                    rcase = dict(case, kind='extract_variable+inline', tags=sorted(rtags),
-                                 semicolon_statement='semicolon-statement' in rtags)
+                    rcase = dict(case, kind='extract_variable+inline', tags=sorted(classify_inline(new, (line, col))))
+                    # the shape of a round-trip failure is read from the inline request on the intermediate program
+                    rreq = {'kind': 'inline', 'line': line, 'column': col}
                     ctx.count('oracle-roundtrip', key, nontrivial=True, bucket=typ)
                     cerr = compiles(back)
                     if cerr is not None:
-                        ctx.fail('oracle-roundtrip', 'extract_variable then inline does not compile', rcase,
-                                 observed={'error': cerr, 'after_extract': new, 'after_inline': back}, how=HOW)
+                        fail(ctx, 'oracle-roundtrip', 'extract_variable then inline does not compile', rcase,
+                             observed={'error': cerr, 'after_extract': new, 'after_inline': back}, src=new,
+                             request=rreq)
                         continue
                     d2 = compare_runs(old_run, refactor_gen.run_program(back), {'extracted_1'})
                     if d2 is not None:
-                        ctx.fail('oracle-roundtrip', 'extract_variable then inline is not equivalent to the '
-                                 'original', rcase, observed={'differences': d2, 'after_inline': back}, how=HOW)
+                        fail(ctx, 'oracle-roundtrip', 'extract_variable then inline is not equivalent to the '
+                             'original', rcase, observed={'differences': d2, 'after_inline': back}, src=new,
+                             request=rreq)
 
 
 def fixed_probes(ctx):
@@ -604,23 +591,21 @@ def fixed_probes(ctx):
     for src, pos, tags in probes:
         case = {'source': src, 'kind': 'inline', 'line': pos[0], 'column': pos[1], 'until_line': None,
                 'until_column': None, 'tags': sorted(classify_inline(src, pos))}
-        case['semicolon_statement'] = 'semicolon-statement' in case['tags']
         new = new_code_of(jedi.Script(src).inline(*pos))
         ctx.count('oracle-compile', (src, pos), nontrivial=True, bucket='probe')
         cerr = compiles(new)
         if cerr is not None:
-            ctx.fail('oracle-compile', 'inline returned a program that does not compile', case,
-                     observed={'error': cerr, 'new_code': new}, how=HOW)
+            fail(ctx, 'oracle-compile', 'inline returned a program that does not compile', case,
+                 observed={'error': cerr, 'new_code': new})
     src = 'x = (1 +\n     2)\n'
     case = {'source': src, 'kind': 'extract_variable', 'line': 1, 'column': 5, 'until_line': 2,
-            'until_column': 6, 'tags': [], 'multiline_statement': True, 'until_next_line_start': False,
-            'stmt_text_end': False, 'selection_is_target': False}
+            'until_column': 6, 'tags': []}
     new = new_code_of(jedi.Script(src).extract_variable(1, 5, new_name='extracted_1', until_line=2, until_column=6))
     cerr = compiles(new)
     ctx.count('oracle-compile', (src, 1, 5), nontrivial=True, bucket='probe')
     if cerr is not None:
-        ctx.fail('oracle-compile', 'extract_variable returned a program that does not compile', case,
-                 observed={'error': cerr, 'new_code': new}, how=HOW)
+        fail(ctx, 'oracle-compile', 'extract_variable returned a program that does not compile', case,
+             observed={'error': cerr, 'new_code': new})
 
 
 def compare(ctx, reqs, pending, answers):
